@@ -95,6 +95,9 @@ def classify(files, rr):
         if re.search(r"export\s*\*\s*from", text): return "export_star_cycle_stack_overflow"
         if has_unguarded_cycle(text): return "alias_cycle_without_constructor_stack_overflow"
         if re.search(r"type\s+(\w+)\s*<[^>]+>\s*=[^;]*\b\1\s*<", text): return "polymorphic_recursion_stack_overflow"
+        m = re.search(r"const\s+(\w+)\s*=\s*([^;]*);", text)
+        if m and re.search(r"\b%s\b" % re.escape(m.group(1)), m.group(2)) and re.search(r"typeof\s+%s\b" % re.escape(m.group(1)), text):
+            return "typeof_self_referential_const_stack_overflow"
     return None
 
 
@@ -156,11 +159,42 @@ def check(run):
     for i in range(30 if quick else 1200):
         pad = "// " + "x" * r.randrange(40, 400) + "\n" * r.randrange(1, 6)
         inits = r.sample(['"created"', "PREFIX", "1 + 2", "7", '`${PREFIX}_x`', "other.length"], r.randrange(2, 4))
-        members = ", ".join("M%d = %s" % (j, e) for j, e in enumerate(inits))
+        # a member may be declared with a string-literal name
+        quoted = r.randrange(len(inits)) if r.random() < 0.4 else -1
+        members = ", ".join(('"m-%d" = %s' % (j, e)) if j == quoted and j != 0 else ("M%d = %s" % (j, e)) for j, e in enumerate(inits))
         lib = pad + 'const PREFIX = "p";\nexport enum Kind { %s }\nexport type Whole = Kind;' % members
         use = r.choice(["Kind.M0", "Kind.M1", "Kind", "{ k: Kind.M%d }" % r.randrange(len(inits))])
         entry = 'import { Kind } from "./lib";\nexport type T = %s;\nparse.buildParsers<{ T: T }>();' % use
         projects.append([("entry.ts", entry), ("lib.ts", lib)]); tags.append("enum-across-modules")
+    # typeof of a default export that is an expression over the exporting module's own constants (object literal with shorthand
+    # members, array with spreads); the importing file may declare constants of the same names
+    for i in range(20 if quick else 600):
+        pad = "// " + "z" * r.randrange(100, 500) + "\n" * r.randrange(1, 5)
+        form = r.choice(["object", "object", "array", "nested"])
+        if form == "object":
+            lib = pad + 'const retries = 3;\nconst theme = { dark: true };\nexport default { retries, theme, size: 12 };'
+        elif form == "array":
+            lib = pad + 'const base = ["a", "b"] as const;\nexport default [...base, "c"] as const;'
+        else:
+            lib = pad + 'const inner = { n: 1 };\nconst outer = { inner, tag: "t" };\nexport default { outer, list: [inner, inner] };'
+        use = r.choice(["typeof d", "{ s: typeof d }", "Array<typeof d>"] + (["typeof d.theme", "typeof d.retries"] if form == "object" else []) +
+                       (["typeof d.outer.inner"] if form == "nested" else []))
+        clash = r.choice(["", "", 'const theme = { current: d };\n', 'const retries = "r";\n', 'const inner = [d];\n', 'const base = d;\n'])
+        entry = 'import d from "./settings";\n%sexport type T = %s;\nparse.buildParsers<{ T: T }>();' % (clash, use)
+        projects.append([("entry.ts", entry), ("settings.ts", lib)]); tags.append("default-export-expression")
+    # import types with type arguments: the arguments are written in the importing file (local names, unsupported keywords)
+    for i in range(16 if quick else 400):
+        pad = "// " + "y" * r.randrange(0, 300) + "\n" * r.randrange(1, 4)
+        arg = r.choice(["Local", "Local[]", "{ a: Local }", "symbol", "Local | null", "never", "Missing"])
+        form = r.choice(["named", "named", "default"])
+        if form == "named":
+            lib = "export type G<T> = { items: T[] };\nexport type H<A, B> = [A, B];"
+            use = r.choice(['import("./lib").G<%s>' % arg, 'import("./lib").H<%s, number>' % arg, 'import("./lib").H<string, %s>' % arg])
+        else:
+            lib = "type G<T> = { items: T[] };\nexport default G;"
+            use = 'import("./lib")<%s>' % arg
+        entry = pad + 'type Local = string;\nexport type T = %s;\nparse.buildParsers<{ T: T }>();' % use
+        projects.append([("entry.ts", entry), ("lib.ts", lib)]); tags.append("import-type-arguments")
     # cycles made of aliases only (tsc rejects them), used where the type goes straight to the semantic engine or to the printer
     CYCLES = ["type A = B;\ntype B = A;", "type A = A;", "type Id<T> = T;\ntype A = Id<A>;", "type A = B;\ntype B = C;\ntype C = A;",
               "type A = Readonly<A>;"]
@@ -235,6 +269,8 @@ def check(run):
         files = eval(kf["witness"], {"__builtins__": {}}, {})
         rr = cstage.compile_projects([files])[0]
         failing = rr.get("outcome") in ("panic", "abort", "timeout", "emit_error")
+        if kf.get("expect") == "code":          # a valid program that was rejected (or diagnosed in the wrong file)
+            failing = failing or rr.get("outcome") != "code"
         if kf.get("kind") == "known" and failing:
             run.known("class=%s %s" % (kf["class"], kf["what"]))
             run.coverage["known_findings_reproduced"].append(kf["class"])
